@@ -208,8 +208,12 @@ class OutboxRelay(Entity):
         # Collect pending entries up to batch_size
         pending = [e for e in self._entries if not e.relayed][: self._batch_size]
 
+        # Claim the whole batch before any latency wait: a poll cycle that
+        # starts while this one is still relaying must not pick the same entries.
         for entry in pending:
             entry.relayed = True
+
+        for entry in pending:
             self._entries_relayed += 1
 
             # Track relay lag
